@@ -67,11 +67,23 @@ def _auto_nproc(nproc):
     return nproc
 
 
-def run_impl(fn, cases, nproc=16, limit=120):
+RETRIED = [0]   # number of cases re-run after a first timeout (reported by the checks that read it)
+
+
+def run_impl(fn, cases, nproc=16, limit=120, _retry=True):
     """fn: module-level function case -> result (picklable). Returns list of (status, value)."""
     if not cases:
         return []
     nproc = max(1, min(_auto_nproc(nproc), len(cases)))
     ctx = mp.get_context('fork')
     with ctx.Pool(nproc, initializer=_init_worker, maxtasksperchild=200) as pool:
-        return pool.map(_call, [(fn, c, limit) for c in cases], chunksize=1)
+        res = pool.map(_call, [(fn, c, limit) for c in cases], chunksize=1)
+    # a per-case alarm that fires on a saturated machine says nothing about the code: every timed-out case is run once more,
+    # few at a time and with four times the limit; only a case that times out again is handed to the property as 'timeout'
+    slow = [i for i, (st, _) in enumerate(res) if st == 'timeout']
+    if slow and _retry:
+        RETRIED[0] += len(slow)
+        with ctx.Pool(min(4, len(slow)), initializer=_init_worker, maxtasksperchild=50) as pool:
+            for i, r in zip(slow, pool.map(_call, [(fn, cases[i], 4 * limit) for i in slow], chunksize=1)):
+                res[i] = r
+    return res
